@@ -402,6 +402,27 @@ def proof_part(rep, relpath, deps, dirs):
     return rep.proof_broken is None
 
 
+def proof_part_extra(rep, pr):
+    """Merge the result of check_properties_file for a FURTHER theorem file of the same property into the
+    coverage that proof_part recorded (obligations, discharged, theorem names, Print Assumptions); returns
+    True when that file re-checked.  A broken file sets rep.proof_broken like proof_part does."""
+    cov = rep.coverage
+    cov["obligations"] = cov.get("obligations", 0) + len(pr["obligations"])
+    cov["discharged"] = cov.get("discharged", 0) + len(pr["discharged"])
+    cov["theorem_names"] = list(cov.get("theorem_names", [])) + list(pr["obligations"])
+    pa = dict(cov.get("print_assumptions", {}))
+    pa.update(pr["assumptions"])
+    cov["print_assumptions"] = pa
+    cov["checker_cmd"] = (cov.get("checker_cmd", "") + " ; " + pr["cmd"]).strip(" ;")
+    non_closed = {k: v for k, v in pr["assumptions"].items() if not v.startswith("Closed under")}
+    ax = dict(cov.get("axioms_used", {}))
+    ax.update(non_closed)
+    cov["axioms_used"] = ax
+    if not pr["ok"]:
+        rep.proof_broken = "proof obligation no longer checks: %s\n%s" % (pr["failed_dep"], pr["log"][-1500:])
+    return pr["ok"]
+
+
 TRUSTED_BASE_COMMON = [
     "Coq 8.16.1 kernel and its bytecode VM (vm_compute); native_compute is not used",
     "the hand-written Gallina model is tied to /repo only by the correspondence check of this run (differential testing; strength bounded by the generators whose distributions are recorded here)",
